@@ -119,7 +119,7 @@ def gen_design(r, features=()):
                 ins.positional = plist
                 ins.conns = {pn: at for (pn, _, _), at in zip(ref.ports, plist)}
             if "params" in features and r.random() < 0.3:
-                ins.params = {"INIT": r.choice(["8'hFF", "3", "\"a b\""])}
+                ins.params = {"INIT": r.choice(["8'hFF", "3", "\"a b\"", "\"C:\\\\mem\\\\boot.hex\"", "\"done\\n\""])}
                 for extra in r.sample(["IS_C_INVERTED", "WIDTH", "LOC"], r.choice([0, 1, 2, 3])):
                     ins.params[extra] = r.choice(["1'b0", "12", "\"X1Y2\""])
             if "attrs" in features and r.random() < 0.3:
